@@ -28,17 +28,36 @@ META = {
             "heap — what the VM guarantees; without it the model panics like the Rust code would on a wild pointer) and, for "
             "make-vector/make-string, the size bound of the property (<= 10^6, far below the capacity-overflow panic), "
             "T06.3 fuel bounds and circular-witness negations, T06.4 error rendering, T06.5 quiescence after failure. "
+            "T06.3 for the repaired list? (3d7bbb6) is closed for EVERY store: isListTH_total — on every well-formed store of "
+            "any size, circular or not, and every valid argument, fuel >= 2*|cells|+2 gives `ok b` (never diverge, panic or "
+            "err), the store is unchanged and b = #t iff the cdr chain reaches () (inductive ProperList); "
+            "isListTH_never_diverges drops the well-formedness hypothesis altogether (a wild reference panics, it does not "
+            "hang). Floyd/pigeonhole argument in Lemmas/TotalListP.lean (core Lean only); the driver passes fuel "
+            "4*fuelOf(s)+64 >= 2*|cells|+2. T06.2 now also covers append, the prelude's length, memq memv member assq assv "
+            "assoc, and map / for-each for every callee obeying the explicit law CalleeLaw (on every well-formed store and "
+            "valid arguments: no panic, and the store handed back is well formed, only grew, result valid) — the law holds "
+            "for car cdr cons list append and is closed under map/for-each (calleeLaw_instances); the *_wf theorems show "
+            "that these procedures PRESERVE Store.WF (the hypothesis of all T06.2 lemmas); quotient remainder modulo: the "
+            "wrapper's zero test keeps every argument list away from the division-by-zero panics of the Num model "
+            "(scmQuotient/Remainder/Modulo_noPanic; quotient_by_zero_panics shows the guard is needed). "
             "NOT proved: that the parser model never panics on scanner output (only its termination is; the panic class is "
-            "compared with the real parser by the C11 and text streams); termination of the repaired list? on EVERY store "
-            "(proved: it never panics; it answers #f on the one- and two-element cycle witnesses where the pinned loop "
-            "diverges for every fuel; the six circular palette values are explored on the real code); no-panic lemmas for "
-            "append, length, memq..assoc, map, for-each, quotient/remainder/modulo (class correspondence only). "
+            "compared with the real parser by the C11 and text streams); termination of length/memq../map on acyclic lists "
+            "is C14's (fuel > list length), on circular lists it is false (known findings). map/for-each: the law is a "
+            "hypothesis about the callee's store transformer — for a closure callee it is not derived from the VM model. "
             "Carried ONLY by the exploration (no model, no theorem): the numeric procedures outside Num.Arith/Cmp (trig, "
             "sqrt, exp, log, exact->inexact, inexact->exact, number->string, string->number at the VM level, random-*), "
-            "predicates, symbol procedures, ports, apply/eval/call/cc/error, the compiler on ill-formed programs and T06.6 "
-            "(step never panics on compiled code). The Num model has genuine panic branches for division by an exact zero "
-            "that the Scheme-level wrappers guard; those guards are covered by the class correspondence, not by a theorem "
-            "here. Known findings (not fixed): length, equal?, display, write on circular data and a circular value as the "
+            "predicates, symbol procedures, ports, apply/eval/call/cc/error as procedures, the compiler on ill-formed "
+            "programs. T06.6 (machine model Vm.step = run_one): step_panic_sites — in every state satisfying the "
+            "frame-chain invariant WFS (preserved by step: C04/C05/C07), under the explicit heap-side laws PanicLaws "
+            "(%ip designates a lambda; a lambda whose code contains VARARG has a rest parameter; closure/activation "
+            "construction, vector push, generic builtins and eval's compiler do not panic — hypotheses, satisfiable: toy "
+            "instance), every checked subtraction of RET/ENTER/TCALL/VARARG/apply/eval/call-cc, the to_continuation slice "
+            "and the `%ip is not a procedure` expectations are unreachable; exactly two sites remain and are named in the "
+            "statement: restore_continuation's split_at_mut (needs the temporal fact that the stack never shrinks below a "
+            "captured continuation, which WFS does not record) and the model's fuel guard in apply's list walk (cyclic "
+            "argument list: the Rust loop would hang). The tie of WFS to real compiled code is C04's bytecode-verifier "
+            "stream, not repeated here. The Num model has genuine panic branches for division by an exact zero "
+            "that the Scheme-level wrappers guard; those guards are now theorems (scmDivide_noPanic, scmIntOp_noPanic). Known findings (not fixed): length, equal?, display, write on circular data and a circular value as the "
             "result of an evaluation recurse/loop without bound (stack overflow abort or non-termination); (map f) / "
             "(for-each f) without a list argument loops forever when f accepts zero arguments. Fixed in this round: "
             "7c9bd3f (quoting a procedure/macro/continuation datum through eval panicked), 3d7bbb6 (list? looped on a "
@@ -62,7 +81,13 @@ isPairB_noPanic scmPlus_noPanic scmTimes_noPanic scmMinus_noPanic scmUnary_noPan
 scmCmp_noPanic scmPred_noPanic scmMinMax_noPanic scmDivide_noPanic getListTail_terminates circ_wf
 isListTH_circular_self isListTH_circular_two isList_pinned_diverges length_circular_diverges
 equal_circular_diverges render_never_panics renderPinned_panics failed_eval_quiescent builtins_table_size
-builtins_table_windows builtins_table_windows_modelled""".split()]
+builtins_table_windows builtins_table_windows_modelled
+append_noPanic append_wf cons_wf list_wf length_noPanic memq_noPanic memv_noPanic member_noPanic assq_noPanic
+assv_noPanic assoc_noPanic map_noPanic map_wf forEach_noPanic forEach_wf calleeLaw_instances
+quotient_noPanic rem_noPanic modulo_noPanic scmIntOp_noPanic scmQuotient_noPanic scmRemainder_noPanic
+scmModulo_noPanic quotient_by_zero_panics
+isListTH_total isListTH_terminates isListTH_never_diverges circ_not_properList
+step_panic_sites step_never_panics""".split()]
 
 CIRC = {"circ-cdr", "circ-self", "circ-car", "circ-vec", "circ-vl", "circ-lv"}
 REENTRANT = {"cont", "l-cont"}
